@@ -23,6 +23,7 @@ Definition run_c17 (l : list Z) : list Z :=
   | 7 :: ct :: w :: h :: rest => enc_pxs (decode_pixels ct (map (fun v => v / 256) rest))
   | 6 :: w :: h :: rest => rest
   | 5 :: _ => [-9]
+  | 11 :: _ => [-9]
   | 8 :: _ => [-9]
   | 9 :: _ => [-9]
   | _ => [-3]
